@@ -290,7 +290,8 @@ func (gb *gcpBalancer) UpdateClientConnState(ccs balancer.ClientConnState) error
 	}
 
 	if len(gb.scRefs) == 0 {
-		gb.newSubConn()
+		// The mutex is already held: newSubConn() would lock it again.
+		gb.addSubConn()
 		return nil
 	}
 
